@@ -291,7 +291,9 @@ def rule_chain_align(P):
             st = W.stmt_of(calls[0])
             if isinstance(st, ast.Assign) and isinstance(st.targets[0], ast.Name):
                 pvar = st.targets[0].id
-            ok = norm(a) == f"{ctx}[:{i}]" and norm(mults[0].value) == f"{pvar}[{y}]" and (len(lp.iter.args) == 1)
+            fac = W.cnorm(f.node, mults[0].value, mults[0])
+            ok = W.cnorm(f.node, a, calls[0]) == f"{ctx}[:{i}]" and fac in (f"{pvar}[{y}]", f"self.p_next({ctx}[:{i}])[{y}]", f"{pvar}[{ctx}[{i}]]",
+                                                                          f"self.p_next({ctx}[:{i}])[{ctx}[{i}]]") and (len(lp.iter.args) == 1)
     r.add(f, lp, ok, "" if ok else "the chain rule multiplies p(token | context) with a misaligned token or context", slots=slots)
     g = P.func("lm.py::LM.p_next_seq")
     r.looked_at(g)
@@ -698,6 +700,17 @@ def rule_zview(P):
                 r.add(f, nd, ok, "" if ok else f"`{first_line(nd)}` seeds the search with every key of the start chart, including "
                       f"states whose initial weight is zero: inaccessible states survive trimming",
                       witness="state 2 (`2 -b→ 1`, not initial) survives m.push.trim (DESIGN §5 D10)" if not ok else None)
+    # seeds pushed in a loop over the view:  for q, _ in self.I: stack.append(q)
+    wl = next((x for x in f.node.body if isinstance(x, ast.While)), None)
+    for lp in [x for x in f.node.body if isinstance(x, ast.For) and (wl is None or W.pos(x) < W.pos(wl))]:
+        uses_raw = any(_self_attr(x, "start") or _self_attr(x, "stop") for x in ast.walk(lp.iter))
+        uses_view = any(_self_attr(x, "I") or _self_attr(x, "F") for x in ast.walk(lp.iter))
+        if uses_raw or uses_view:
+            n += 1
+            filt = any(".zero" in t and "!=" in t for t in W.cfacts(f.node, lp.body[-1])) if lp.body else False
+            ok = (uses_view and not uses_raw) or filt
+            r.add(f, lp, ok, "" if ok else f"`{first_line(lp)}` seeds the search with every key of the start chart, including states whose initial weight is "
+                  f"zero: inaccessible states survive trimming")
     if n == 0:
         # derived seeds (e.g. visited = set(stack))
         raise AnalysisError("wfsa/base.py::WFSA.accessible: seeds not recognised")
